@@ -129,6 +129,21 @@ def run_one(s):
                     pe["samples"].append(U.q_of({v: [float(x) for x in co[v][i]] for v in vs}, dict(srow, **bind)))
             else:
                 pe["samples_exc"] = r3[1] if len(r3) > 1 else "hang"
+            # normals of a boundary after binding, and of the original boundary at the same points with the joint rows
+            pe["normals"], pe["normals_full"], pe["normals_exc"] = [], [], ""
+            r5 = watched(lambda: dom.sample_random_uniform(n=8, params=U.mk_params(names, [dict(srow, **bind)] if names else [])), 6) \
+                if e["k"] in ("bd", "bdl", "bdr") else ("skip",)
+            if r5[0] == "ok" and len(r5[1]) > 0:          # points of the ORIGINAL boundary at the joint row
+                spts, m_ = r5[1], len(r5[1])
+
+                def nrm(D, nms, rw):
+                    out = D.normal(spts, U.mk_params(nms, [rw] * m_) if nms else Points.empty())
+                    return [[U.quant(x, 256) for x in rowv] for rowv in torch.as_tensor(out).detach().reshape(m_, -1).tolist()]
+                ra_, rb_ = watched(lambda: nrm(D2, rest, srow)), watched(lambda: nrm(dom, names, dict(srow, **bind)))
+                if ra_[0] == "ok" and rb_[0] == "ok":
+                    pe["normals"], pe["normals_full"] = ra_[1], rb_[1]
+                else:
+                    pe["normals_exc"] = "after:%s/original:%s" % (ra_[1] if len(ra_) > 1 and ra_[0] != "ok" else ra_[0], rb_[1] if len(rb_) > 1 and rb_[0] != "ok" else rb_[0])
             # the ORIGINAL domain evaluated at bound values + remaining rows: must agree with D2
             full = {}
             attr(dom, names, [dict(r_, **bind) for r_ in rows], full)
